@@ -6,9 +6,11 @@
     bytesconv.Atoi / ParseFloat (property C03); nothing is assumed about them.
     Aliasing of the reused Result (the "cloned result never changes" clause) is
     outside a pure model: it is checked on every generated history only. *)
-From Perf Require Import Base.Bytes Base.B64 Base.Utf8 Base.Unicode
-  Model.Name Model.Extract Model.Units Model.Reader Model.Files
-  Proofs.ReaderSlots Proofs.Reader Proofs.ReaderInert Proofs.FilesLabels.
+From Perf Require Import Base.Bytes Base.B64 Base.Utf8 Base.Unicode Base.UnicodeTables
+  Model.Name Model.Extract Model.Units Model.Reader Model.Files Model.ReaderSpec
+  Proofs.ReaderSlots Proofs.Reader Proofs.ReaderInert Proofs.FilesLabels
+  Proofs.ReaderSpecKV Proofs.ReaderSpecFields Proofs.ReaderSpec Proofs.ReaderSpec2 Proofs.ReaderSpecFile
+  Proofs.FilesLabelsDistinct.
 
 (** any history of ensureConfig/deleteConfig on the slots (started over
     whatever stale slots [stale] an earlier input left behind the slice):
@@ -202,3 +204,200 @@ Theorem C02_stdin_label_old_refuted :
   spec_inputs_stdin true [] = [mkFinput dash (bs "-") false].
 Proof. exact stdin_label_old_refuted. Qed.
 Print Assumptions C02_stdin_label_old_refuted.
+
+(** * The declarative specification (Model/ReaderSpec.v) and the repaired reader
+
+    The theorems above relate the reader of Model/Reader.v (64 KiB line limit,
+    model shared with C01/C14) to [linespec], which is built from the same
+    line classifier.  Below: the grammar of lines and line kinds stated without
+    the reader's scanners, the scanners proved sound and complete for it, the
+    specification with the tool's labels kept apart from the file
+    configuration ([linespec2 false], the judge's prop_ok), and the reader
+    without the line limit (hooks/fix_c02_long_line.diff). *)
+
+(** a text falls into lines in exactly one way (cut at LF, last piece without
+    LF counts unless empty, one trailing CR dropped), and that is what the
+    repaired reader's scanner delivers - whatever the length of a line *)
+Theorem C02_lines : forall s ls, Lines s ls <-> split_nl s = ls.
+Proof. exact Lines_iff. Qed.
+Print Assumptions C02_lines.
+
+(** on texts whose lines are under 64 KiB the scanner of Model/Reader.v delivers the same lines *)
+Theorem C02_lines_short : forall s, lines_short s -> split_lines s = lines_nl s.
+Proof. exact split_lines_short. Qed.
+Print Assumptions C02_lines_short.
+
+(** the key/value recogniser accepts exactly the lines  key ':' [blank+ value]
+    (key: lower-case first rune, no white space, no upper case, ends at the
+    first colon behind its first rune; value without leading blanks), with
+    exactly that key and value.  [Hcolon]: ':' is neither white space nor an
+    upper-case letter (true of unicode.IsSpace/IsUpper: [C02_hcolon_go]) *)
+Theorem C02_kv_grammar : forall is_space is_lower is_upper,
+  is_space 58%N = false /\ is_upper 58%N = false ->
+  forall line k v, parse_kv is_space is_lower is_upper line = Some (k, v) <-> KVLine is_space is_lower is_upper line k v.
+Proof. exact parse_kv_iff. Qed.
+Print Assumptions C02_kv_grammar.
+
+Example C02_hcolon_go : go_is_space 58%N = false /\ go_is_upper 58%N = false.
+Proof. exact hcolon_go. Qed.
+
+(** the line classifier decides the grammar of line kinds: a line is a
+    benchmark line (with the outcome the grammar of benchmark lines gives), a
+    unit line, a key/value line or an other line exactly as [LineKind] says,
+    and [LineKind] gives every line exactly one kind *)
+Theorem C02_line_kinds : forall is_space is_lower is_upper atoi parse_float,
+  is_space 58%N = false /\ is_upper 58%N = false ->
+  forall line c,
+  classify is_space is_lower is_upper atoi parse_float line = c
+  <-> LineKind is_space is_lower is_upper atoi parse_float line c.
+Proof. exact classify_grammar. Qed.
+Print Assumptions C02_line_kinds.
+
+Theorem C02_line_kind_unique : forall is_space is_lower is_upper atoi parse_float,
+  is_space 58%N = false /\ is_upper 58%N = false ->
+  forall line c c',
+  LineKind is_space is_lower is_upper atoi parse_float line c ->
+  LineKind is_space is_lower is_upper atoi parse_float line c' -> c = c'.
+Proof. exact line_kind_unique. Qed.
+Print Assumptions C02_line_kind_unique.
+
+(** what stands behind "Benchmark": the parser's outcome (skipped bare name,
+    one of the five errors, or name / iterations / measurements) is the one the
+    grammar [BenchLine] gives, and only that *)
+Theorem C02_bench_grammar : forall is_space atoi parse_float rest o,
+  parse_bench is_space atoi parse_float rest = o <-> BenchLine is_space atoi parse_float rest o.
+Proof. exact parse_bench_iff. Qed.
+Print Assumptions C02_bench_grammar.
+
+(** fields: the successive splitField calls deliver the fields of [Tokens]
+    (maximal runs of non-white runes), which every stretch of a line has in
+    exactly one way *)
+Theorem C02_fields_grammar : forall is_space l,
+  exists fs, Tokens is_space l fs /\ fields is_space l = map flat fs /\
+             forall fs', Tokens is_space l fs' -> fs' = fs.
+Proof. exact fields_grammar. Qed.
+Print Assumptions C02_fields_grammar.
+
+(** measurements: pairs of a number and a unit; the error is the first thing wrong *)
+Theorem C02_meas_grammar : forall is_space parse_float ms r,
+  parse_vals is_space parse_float ms [] = r <-> Meas is_space parse_float ms r.
+Proof. exact parse_vals_iff. Qed.
+Print Assumptions C02_meas_grammar.
+
+(** items of a unit line: key=value with a non-empty key ending at the first '=' *)
+Theorem C02_unit_item_grammar : forall f k v, parse_unit_field f = UFKV k v <-> UnitItem f k v.
+Proof. exact parse_unit_field_iff. Qed.
+Print Assumptions C02_unit_item_grammar.
+
+(** the specification with the labels apart is [linespec] on every input none
+    of whose key/value lines names a label of the tool, and IS [linespec]
+    when the recorded deviation is allowed (known_ok) *)
+Theorem C02_spec_labels_apart : forall is_space is_lower is_upper atoi parse_float ls um fname labels,
+  no_label_collision is_space is_lower is_upper atoi parse_float labels ls ->
+  linespec2_on is_space is_lower is_upper atoi parse_float false ls um fname labels
+  = spec_lines is_space is_lower is_upper atoi parse_float (file_name fname) 0 (cm_labels labels) um ls.
+Proof. exact linespec2_strict. Qed.
+Print Assumptions C02_spec_labels_apart.
+
+Theorem C02_spec_relaxed : forall is_space is_lower is_upper atoi parse_float ls um fname labels,
+  linespec2_on is_space is_lower is_upper atoi parse_float true ls um fname labels
+  = spec_lines is_space is_lower is_upper atoi parse_float (file_name fname) 0 (cm_labels labels) um ls.
+Proof. exact linespec2_relax. Qed.
+Print Assumptions C02_spec_relaxed.
+
+(** the repaired reader (no line limit), from ANY earlier state, delivers
+    record for record what the property prescribes - every label of the tool
+    on every result - on every input none of whose key/value lines names a
+    tool label; and never fails on a line *)
+Theorem C02_reader_nl_refines_spec :
+  forall is_space is_lower is_upper atoi parse_float st fname labels content rs e st',
+  no_label_collision is_space is_lower is_upper atoi parse_float labels (lines_nl content) ->
+  read_file_nl is_space is_lower is_upper atoi parse_float st fname labels content = (rs, e, st') ->
+  exists rs2,
+    linespec2 is_space is_lower is_upper atoi parse_float false (rs_units st) fname labels content
+      = (rs2, e, rs_units st') /\
+    Forall2 rec_equiv rs rs2.
+Proof. exact reader_nl_refines_spec. Qed.
+Print Assumptions C02_reader_nl_refines_spec.
+
+(** ... and on EVERY input what the property prescribes with the recorded deviation allowed *)
+Theorem C02_reader_nl_refines_relaxed :
+  forall is_space is_lower is_upper atoi parse_float st fname labels content rs e st',
+  read_file_nl is_space is_lower is_upper atoi parse_float st fname labels content = (rs, e, st') ->
+  exists rs2,
+    linespec2 is_space is_lower is_upper atoi parse_float true (rs_units st) fname labels content
+      = (rs2, e, rs_units st') /\
+    Forall2 rec_equiv rs rs2.
+Proof. exact reader_nl_refines_relaxed. Qed.
+Print Assumptions C02_reader_nl_refines_relaxed.
+
+Theorem C02_reader_nl_no_io_error :
+  forall is_space is_lower is_upper atoi parse_float st fname labels content rs e st',
+  read_file_nl is_space is_lower is_upper atoi parse_float st fname labels content = (rs, e, st') -> e = None.
+Proof. exact reader_nl_no_io_error. Qed.
+Print Assumptions C02_reader_nl_no_io_error.
+
+Theorem C02_reader_take_nl_refines_spec :
+  forall is_space is_lower is_upper atoi parse_float k st fname labels content rs e st',
+  no_label_collision is_space is_lower is_upper atoi parse_float labels (lines_nl content) ->
+  read_file_take_nl is_space is_lower is_upper atoi parse_float k st fname labels content = (rs, e, st') ->
+  exists rs2,
+    linespec_take2 is_space is_lower is_upper atoi parse_float false k (rs_units st) fname labels content
+      = (rs2, e, rs_units st') /\
+    Forall2 rec_equiv rs rs2.
+Proof. exact reader_take_nl_refines_spec. Qed.
+Print Assumptions C02_reader_take_nl_refines_spec.
+
+(** the repaired reader is the reader of Model/Reader.v on texts with short lines *)
+Theorem C02_reader_nl_short :
+  forall is_space is_lower is_upper atoi parse_float st fname labels content,
+  split_lines content = lines_nl content ->
+  read_file_nl is_space is_lower is_upper atoi parse_float st fname labels content
+  = read_file is_space is_lower is_upper atoi parse_float st fname labels content.
+Proof. exact read_file_nl_short. Qed.
+Print Assumptions C02_reader_nl_short.
+
+(** a sequence of files (label ".file", which no key/value line can spell
+    since '.' is not a lower-case letter): each file read on its own from its
+    bare label, only the unit table threaded through - on EVERY input *)
+Theorem C02_files_nl_no_leak :
+  forall is_space is_lower is_upper atoi parse_float, is_lower 46%N = false ->
+  forall fs ins st rs e st',
+  files_loop_nl is_space is_lower is_upper atoi parse_float fs ins st = (rs, e, st') ->
+  exists rs2,
+    files_spec_loop2 is_space is_lower is_upper atoi parse_float false fs ins (rs_units st)
+      = (rs2, e, rs_units st') /\
+    Forall2 rec_equiv rs rs2.
+Proof. exact files_nl_no_leak'. Qed.
+Print Assumptions C02_files_nl_no_leak.
+
+Example C02_hdot_go : go_is_lower 46%N = false.
+Proof. exact hdot_go. Qed.
+
+(** "duplicates disambiguated": under the label rule, inputs naming the same
+    path without a label of their own carry pairwise different labels *)
+Theorem C02_labels_dups_distinct : forall allow_labels paths,
+  dups_distinct (spec_inputs allow_labels paths) = true.
+Proof. exact labels_dups_distinct. Qed.
+Print Assumptions C02_labels_dups_distinct.
+
+(** known finding C02_file_line_overrides_tool_label, on the model of the code:
+    with the label goos=L supplied by the tool, the line "goos:" deletes it
+    and "goos: x" replaces it by file configuration; the property keeps it *)
+Theorem C02_label_deleted_by_file_line_refuted :
+  let atoi (f : bytes) := if beq f (bs "1") then Some 1%Z else None in
+  let pf (f : bytes) := @None b64 in
+  let cfgs (x : list record * option Z * rstate) :=
+    match x with ([RRes r], None, _) => Some (map (fun c => (c_key c, c_val c, c_file c)) (r_cfg r)) | _ => None end in
+  let specs (x : list record * option Z * list umetap) :=
+    match x with ([RRes r], None, _) => Some (map (fun c => (c_key c, c_val c, c_file c)) (r_cfg r)) | _ => None end in
+  let lab := [(bs "goos", bs "L")] in
+  cfgs (read_file_nl go_is_space go_is_lower go_is_upper atoi pf rs_empty (bs "f") lab (label_witness (bs "goos:"))) = Some [] /\
+  cfgs (read_file_nl go_is_space go_is_lower go_is_upper atoi pf rs_empty (bs "f") lab (label_witness (bs "goos: x")))
+    = Some [(bs "goos", bs "x", true)] /\
+  specs (linespec2 go_is_space go_is_lower go_is_upper atoi pf false [] (bs "f") lab (label_witness (bs "goos:")))
+    = Some [(bs "goos", bs "L", false)] /\
+  specs (linespec2 go_is_space go_is_lower go_is_upper atoi pf false [] (bs "f") lab (label_witness (bs "goos: x")))
+    = Some [(bs "goos", bs "L", false); (bs "goos", bs "x", true)].
+Proof. exact label_deleted_by_file_line_refuted. Qed.
+Print Assumptions C02_label_deleted_by_file_line_refuted.
